@@ -2,6 +2,7 @@
 // Input lines:  FM <hex bytes>   |  MFM <hex bytes>      (bits LSB-first within each byte, stride 1)
 // Output line:  one JSON array of [cyl,head,rec,len,"datahex","crchex"] per input line.
 #include "track.h"
+#include "verif_trace.h"   // from the repository (verif-hook commit): no-op unless built with -DBEEBTOOLS_VERIF
 #include <cstdio>
 #include <iostream>
 #include <string>
@@ -14,8 +15,11 @@ int main()
 {
   std::set_terminate([]() { fputs("TERMINATE\n", stdout); fflush(stdout); _exit(3); });
   std::string line;
+  int lineno = 0;
   while (std::getline(std::cin, line))
     {
+      VERIF_EVENT("{\"e\":\"line\",\"n\":%d}", lineno);
+      ++lineno;
       size_t sp = line.find(' ');
       if (sp == std::string::npos) { puts("ERR"); continue; }
       std::string enc = line.substr(0, sp);
